@@ -571,10 +571,43 @@ func TestC15Names(t *testing.T) {
 		"!(strlen(`%s`) > 2)",
 		"join('-', `%s`, key) ^= 'k'",
 	}
-	idx := 0
+	// every name of up to two (thorough: three) characters over the characters
+	// that matter to the lexer: whatever cannot be written bare must come
+	// back in back quotes
+	const nameAlphabet = "aB1 ,;()[]'\"+-=!<^~&|*/.\t"
+	var enum []string
+	var rec func(prefix string, depth int)
+	rec = func(prefix string, depth int) {
+		if prefix != "" {
+			enum = append(enum, prefix)
+		}
+		if depth == 0 {
+			return
+		}
+		for i := 0; i < len(nameAlphabet); i++ {
+			rec(prefix+nameAlphabet[i:i+1], depth-1)
+		}
+	}
+	rec("", lib.Pick(2, 3))
+	type nameCase struct{ head, name, shape string }
+	var cases []nameCase
 	for _, h := range heads {
 		for _, nm := range names {
 			for _, sh := range shapes {
+				cases = append(cases, nameCase{h, nm, sh})
+			}
+		}
+	}
+	for _, nm := range enum {
+		for _, sh := range shapes {
+			cases = append(cases, nameCase{heads[0], nm, strings.ReplaceAll(sh, "'%s'", "'zz'")})
+		}
+	}
+	idx := 0
+	{
+		{
+			for _, nc := range cases {
+				h, nm, sh := nc.head, nc.name, nc.shape
 				idx++
 				if !lib.Mine(idx) {
 					continue
